@@ -54,8 +54,9 @@ PROPERTY = {
     "id": "C02",
     "suites": [SUITE],
     "bounds": {"quick": {"commits": 3, "parents per commit": "<=2", "deliveries (incl. redelivery)": 3, "fields per commit": 1, "hash orders": "all n!"},
-               "thorough": {"commits": 4, "parents per commit": "<=2", "deliveries (incl. redelivery)": 3, "fields per commit": 1, "hash orders": "all n!"}},
+               "thorough": {"commits": 4, "parents per commit": "<=2", "deliveries (incl. redelivery)": 3, "fields per commit": 1, "hash orders": "all n!"},
+               "fixed histories": "two chains 3+2, two chains joined by a merge, diamond with tail and late fork, three branches, double diamond (6 commits, 3-4 deliveries, symbolic increments), long and short branch joined with a late fork (8 commits, 2-3 deliveries, increments fixed to powers of three); identity and reversed hash order"},
     "assumptions": ["dag-cbor round-trips a Block and a block's link is a function of its content (blocks live in a table inside the solver run; natively they are really encoded and stored)",
-                    "kvmodel follows the corekv contract", "every commit writes the one field (field clock mirrors the composite clock)", "no commit descends from a delete commit"],
+                    "kvmodel follows the corekv contract", "every commit writes the one field (field clock mirrors the composite clock), except where a job restricts the writers (conf fieldmask)", "how often a block sits in the walk queue is not asserted; once-only application is asserted on the counter value", "no commit descends from a delete commit"],
     "outside_claim": ["more than one document / field per commit", "index maintenance after merge", "net layer redelivery, merge queue, retries"],
 }
